@@ -92,7 +92,7 @@ def _cases(draw):
     case = build(
         d, config=cfg, calls_per_op=2,
         schema_kw={"defaults": 0.1, "scalar_names": ("Money", "DateTime"), "n_scalars": (0, 2), "scalar_weight": 2},
-        ops_kw={"frag_p": 0.6, "var_p": 0.5, "root_frag_reroll_p": 0.0, "root_family_p": 0.35},
+        ops_kw={"frag_p": 0.6, "var_p": 0.5, "local_var_names": True, "root_frag_reroll_p": 0.0, "root_family_p": 0.35},
         doc_kw={"n_ops": (1, 4), "n_frags": (0, 4)}, desc_hook=hook, config_desc_fn=scalar_cfg,
     )
     case.pop("_desc_obj", None)
